@@ -56,21 +56,23 @@ def main():
             print("NOT CONFIRMED", r0.stdout[-500:], r2.stdout[-500:])
             return 1
         demo_src = src.replace(wt, "/repo")
+        # run the checks against the scratch tree with the change applied (VERIF_REPO / VERIF_BUILD / VERIF_EVIDENCE
+        # are development overrides: /repo itself and /verif's own build and evidence directories are not touched)
+        results = {}
+        scratch = f"/tmp/cs_out_{sid}"
+        shutil.rmtree(scratch, ignore_errors=True)
+        os.makedirs(scratch + "/build", exist_ok=True)
+        os.makedirs(scratch + "/evidence", exist_ok=True)
+        os.remove(dpath)
+        for c in checks:
+            rc = sh(f"cd {VERIF} && VERIF_REPO={wt} VERIF_BUILD={scratch}/build VERIF_EVIDENCE={scratch}/evidence ./check {c} --tier quick")
+            lines = [ln.replace(scratch, "<scratch>") for ln in rc.stdout.splitlines() if ln.startswith("VIOLATION")]
+            results[c] = {"exit": rc.returncode, "violation_lines": lines[:3]}
+            print(c, "exit", rc.returncode, lines[:1])
+        shutil.rmtree(scratch, ignore_errors=True)
     finally:
         sh(f"git -C {REPO} worktree remove --force {wt}")
         shutil.rmtree(wt, ignore_errors=True)
-    # run the checks against /repo with the change applied
-    results = {}
-    assert sh(f"git -C {REPO} status --porcelain").stdout.strip() == "", "/repo not clean"
-    try:
-        assert sh(f"git -C {REPO} apply {diff}").returncode == 0
-        for c in checks:
-            rc = sh(f"cd {VERIF} && ./check {c} --tier quick")
-            lines = [ln for ln in rc.stdout.splitlines() if ln.startswith("VIOLATION")]
-            results[c] = {"exit": rc.returncode, "violation_lines": lines[:3]}
-            print(c, "exit", rc.returncode, lines[:1])
-    finally:
-        sh(f"git -C {REPO} checkout -- .")
     out = os.path.join(VERIF, "seeded", sid)
     os.makedirs(out, exist_ok=True)
     shutil.copy(diff, os.path.join(out, "patch.diff"))
@@ -80,6 +82,7 @@ def main():
         "origin": "independent sub-agent given only the property text and a scratch worktree",
         "confirmed": ran,
         "base_commit": sh(f"git -C {REPO} rev-parse --short HEAD").stdout.strip(),
+        "how_checked": "patch applied to a scratch worktree of /repo HEAD; checks run with VERIF_REPO pointing at it",
         "checks_run": results,
         "detected_by": [c for c, v in results.items() if v["exit"] == 1],
     }
